@@ -73,7 +73,9 @@ func oracleKSplit(c *Ctx, id int, body, impl string) {
 		}
 		// "to floating-point round-off": the two computations are the same arithmetic, so they are bit-identical
 		// unless the model is in splitTolerance
-		return tol > 0 && math.Abs(x-y) <= tol*math.Max(scale, 1)
+		// StorageRouting: every solve ends within massBalanceLimit = 1e-3 m³ of its own balance; the one-call and the split
+		// run start their searches from different index flows, so storages may differ by a few solver tolerances
+		return tol > 0 && (math.Abs(x-y) <= tol*math.Max(scale, 1) || math.Abs(x-y) <= 5e-3)
 	}
 	for o := range a.Out {
 		for t := range a.Out[o] {
